@@ -449,3 +449,10 @@ def run(ctx) -> None:
 
     ctx.rule("C04.labels", "finite evaluation: get_solution puts every value under the identifier of its own reaction / metabolite, whatever the order of the request (shared with C04)", floor=1)
     ctx.guard(solform.check_get_solution, ctx, "C04.labels")
+    # open_exchanges=True widens `model.exchanges`: which reactions that list holds is decided by is_boundary_type over
+    # the annotation / identifier tables - a reaction wrongly left out stays closed and everything behind it is reported
+    # as blocked (shared with C18)
+    from . import medform
+
+    ctx.rule("C18.boundary", "finite domain: which reactions are exchanges / demands / sinks (is_boundary_type, find_boundary_types evaluated over the case table they distinguish; shared with C18)", floor=2)
+    ctx.guard(medform.check_boundary_types, ctx, "C18.boundary")
